@@ -68,6 +68,9 @@ impl<'r> DocGen<'r> {
 	}
 	/// `inside`: records we are inside of (referring to them is only allowed below an array/map/union)
 	pub fn gen(&mut self, depth: usize, conditional: bool, inside: &[(Option<String>, String)]) -> ATy {
+		self.gen2(depth, conditional, inside, true)
+	}
+	fn gen2(&mut self, depth: usize, conditional: bool, inside: &[(Option<String>, String)], allow_union: bool) -> ATy {
 		if self.budget == 0 || depth > 4 {
 			return self.prim();
 		}
@@ -86,14 +89,12 @@ impl<'r> DocGen<'r> {
 		match self.rng.gen_range(0..10) {
 			0 | 1 => ATy::Array(Box::new(self.gen(depth + 1, true, inside))),
 			2 => ATy::Map(Box::new(self.gen(depth + 1, true, inside))),
-			3 => {
+			3 if allow_union => {
 				let n = self.rng.gen_range(1..4);
 				let mut vs = vec![ATy::Prim("null", None)];
 				for _ in 0..n {
-					let b = self.gen(depth + 1, true, inside);
-					if !matches!(b, ATy::Union(_)) {
-						vs.push(b);
-					}
+					let b = self.gen2(depth + 1, true, inside, false);
+					vs.push(b);
 				}
 				ATy::Union(vs)
 			}
@@ -683,4 +684,158 @@ pub fn run(line: &str) -> Result<String, String> {
 #[allow(dead_code)]
 fn _unused(raw: &RawSchema) {
 	let _ = build::to_schema_mut(raw);
+}
+
+// ---------------------------------------------------------------------------------------------
+// Builder graphs: canonical form, regenerated JSON, freeze, re-parse
+
+pub fn generate_graph(stream: &str, seed: u64, n: usize, emit: &mut dyn FnMut(String)) {
+	let mut rng = rng_from(seed, stream);
+	for i in 0..n {
+		let wild = stream == "graph-wild" || rng.gen_bool(0.2);
+		let max_nodes = if i % 10 == 0 { 24 } else { 10 };
+		let mut raw = gen_schema(&mut rng, max_nodes, wild);
+		let mut unique = true;
+		if stream == "graph-wild" {
+			// arbitrary damage through the public builder API
+			match rng.gen_range(0..6) {
+				0 => {
+					// dangling key
+					let len = raw.len();
+					if let Some(node) = raw.iter_mut().find(|n| matches!(n.reg, Reg::Array(_) | Reg::Map(_))) {
+						match &mut node.reg {
+							Reg::Array(k) | Reg::Map(k) => *k = len + rng.gen_range(0..3),
+							_ => {}
+						}
+					}
+				}
+				1 => {
+					// cycle through unnamed types only
+					let len = raw.len();
+					raw.push(RawNode { reg: Reg::Array(len), logical: None });
+					if let Some(Reg::Union(vs)) = raw.iter_mut().map(|n| &mut n.reg).find(|r| matches!(r, Reg::Union(_))) {
+						vs.push(len);
+					} else {
+						raw[0] = RawNode { reg: Reg::Map(len), logical: None };
+					}
+				}
+				2 => raw.clear(),
+				3 => {
+					// duplicate fullname
+					let names: Vec<String> = raw
+						.iter()
+						.filter_map(|n| match &n.reg {
+							Reg::Record(nm, _) | Reg::Enum(nm, _) | Reg::Fixed(nm, _) => Some(nm.clone()),
+							_ => None,
+						})
+						.collect();
+					if let Some(nm) = names.first() {
+						raw.push(RawNode { reg: Reg::Enum(nm.clone(), vec!["Z".into()]), logical: None });
+						let last = raw.len() - 1;
+						raw.push(RawNode { reg: Reg::Union(vec![0, last]), logical: None });
+						let l = raw.len() - 1;
+						raw.swap(0, l);
+						// fix keys that pointed to 0 / l
+						for n in raw.iter_mut() {
+							let fix = |k: &mut usize| {
+								if *k == 0 {
+									*k = l
+								} else if *k == l {
+									*k = 0
+								}
+							};
+							match &mut n.reg {
+								Reg::Array(k) | Reg::Map(k) => fix(k),
+								Reg::Union(vs) => vs.iter_mut().for_each(fix),
+								Reg::Record(_, fs) => fs.iter_mut().for_each(|(_, k)| fix(k)),
+								_ => {}
+							}
+						}
+						unique = false;
+					}
+				}
+				4 => {
+					// logical type on a union, odd names
+					if let Some(node) = raw.iter_mut().find(|n| matches!(n.reg, Reg::Union(_))) {
+						node.logical = Some(Logical::Date);
+					}
+					for n in raw.iter_mut() {
+						if let Reg::Record(nm, _) = &mut n.reg {
+							*nm = [".lead", "trail.", "a..b", "", "x.y.z.W", "quote\"d"].choose(&mut rng).unwrap().to_string();
+							unique = false;
+							break;
+						}
+					}
+				}
+				_ => {}
+			}
+		}
+		if wild {
+			unique = false;
+		}
+		let mut w = W::default();
+		w.t("graph").n(unique as usize).schema(&raw);
+		emit(w.s);
+	}
+}
+
+pub fn run_graph(line: &str) -> Result<String, String> {
+	let mut r = R::new(line);
+	let _ = r.tok()?;
+	let _unique = r.n()?;
+	let raw = r.schema()?;
+	let g = build::to_schema_mut(&raw);
+	let mut w = W::default();
+	let pcf = serde_avro_fast::schema::verif::canonical_form(&g);
+	match &pcf {
+		Ok(p) => w.t("pcf").xs(p),
+		Err(_) => w.t("pcf-err"),
+	};
+	let json = serde_json::to_string(&g);
+	match &json {
+		Ok(text) => {
+			w.t("json");
+			let mut jw = W::default();
+			if !json_tokens(&mut jw, text) {
+				return Err("crate produced text that is not JSON".into());
+			}
+			w.t(&jw.s);
+		}
+		Err(_) => {
+			w.t("json-err");
+		}
+	}
+	match g.clone().freeze() {
+		Ok(frozen) => {
+			// the frozen schema reports the regenerated text and the fingerprint of the form above
+			let same_json = json.as_ref().map_or(false, |t| t == frozen.json());
+			let same_fp = pcf
+				.as_ref()
+				.map_or(false, |p| serde_avro_fast::schema::verif::rabin(p.as_bytes()) == *frozen.rabin_fingerprint());
+			w.t(if same_json && same_fp { "freeze-ok" } else { "freeze-INCONSISTENT" });
+		}
+		Err(_) => {
+			w.t("freeze-err");
+		}
+	}
+	// re-parse the regenerated document
+	if let Ok(text) = &json {
+		match text.parse::<serde_avro_fast::schema::SchemaMut>() {
+			Err(_) => {
+				w.t("reparse-err");
+			}
+			Ok(g2) => {
+				w.t("reparse-ok");
+				match serde_avro_fast::schema::verif::canonical_form(&g2) {
+					Ok(p2) => w.t("pcf2").xs(&p2),
+					Err(_) => w.t("pcf2-err"),
+				};
+				match serde_json::to_string(&g2) {
+					Ok(t2) => w.t(if &t2 == text { "render-idempotent" } else { "render-CHANGED" }),
+					Err(_) => w.t("render2-err"),
+				};
+			}
+		}
+	}
+	Ok(w.s)
 }
